@@ -19,7 +19,7 @@ META = dict(
                 "fields free of whitespace, delimiters non-empty runs of whitespace / ',' / tab, label with arbitrary interior) through a symbolic "
                 "model of the `re` calls it makes; z3 must show the returned columns are exactly the written fields as strings, that a first field "
                 "starting with the comment marker makes the line vanish, that a wrong column count or an unparsable number raises ValueError and "
-                "that two lines keep file order.  (b) post-parse contract: load_events/intervals/labeled_*/valued_intervals/time_series/key/tempo on "
+                "that two lines keep file order.  (a') load_patterns on files whose header structure is concrete and whose note tokens are symbolic: the nesting and values returned equal the file.  (b) post-parse contract: load_events/intervals/labeled_*/valued_intervals/time_series/key/tempo on "
                 "arbitrary parsed columns return the values in file order and only warn on convention violations, except tempo weight outside "
                 "[0,1] and multi-line key/tempo files (ValueError).",
     bounds="pieces of length <=2 (quick) / <=3 (thorough), label <=3 / 5 characters, code points 9..126; 1-2 lines; parsed columns of 0-2 (3) rows",
@@ -28,7 +28,7 @@ META = dict(
            "float() on a symbolic token: injective uninterpreted token FLOAT(s) for tokens in the float-literal language over [0-9.eE+-], ValueError otherwise",
            "(b): io.load_delimited replaced by a stub returning arbitrary symbolic columns"],
     assumptions=["not applicable and not claimed: bit-identical float round trip (CPython's float()/repr), reading from a path vs. an open file, the row "
-                 "number quoted in messages, labels outside the symbolic alphabet, load_patterns / load_ragged_time_series"],
+                 "number quoted in messages, labels outside the symbolic alphabet, load_ragged_time_series, load_wav"],
 )
 
 WS = ST.WHITESPACE
@@ -155,6 +155,7 @@ def float_rx():
 def tok_float(x=0.0):
     x = ST.sym(x)
     if isinstance(x, ST.SymStr):
+        x = x.strip()          # float() ignores surrounding whitespace
         if S.cur().decide(z3.InRe(x.e, float_rx())):
             return FloatTok(x)
         raise ValueError("could not convert string to float")
@@ -200,6 +201,9 @@ class Lines:
 
     def read(self):
         raise NotImplementedError
+
+    def readlines(self):
+        return list(self.lines)
 
     def __iter__(self):
         return iter(self.lines)
@@ -435,9 +439,81 @@ def job_key(rows):
     return j
 
 
+def job_patterns(structure):
+    """load_patterns state machine: `structure` is a list like ['P', 'O', 'N', 'N', 'O', 'N', 'P', 'O', 'N'] (pattern header,
+    occurrence header, note line with two symbolic numeric tokens); the nesting returned must equal the nesting written"""
+    def build(ctx):
+        toks = []
+        k = 0
+        for kind in structure:
+            if kind == 'N':
+                toks.append((piece(ctx, 'on%d' % k, 2, 'num'), piece(ctx, 'mi%d' % k, 1, 'num')))
+                k += 1
+        return dict(toks=toks)
+
+    def body(A, inp):
+        lines = []
+        it = iter(inp['toks'])
+        want = []
+        np_, no_ = 0, 0
+        for kind in structure:
+            if kind == 'P':
+                np_ += 1
+                lines.append("pattern%d\n" % np_)
+                want.append([])
+            elif kind == 'O':
+                no_ += 1
+                lines.append("occurrence%d\n" % no_)
+                want[-1].append([])
+            else:
+                a, b = next(it)
+                lines.append(a + ", " + b + "\n")
+                want[-1][-1].append((a, b))
+        st, res = A.call(IO.load_patterns, as_file(A, lines))
+        A.observe('status', st if st == 'ok' else type(res).__name__)
+
+        def valid(tok):
+            if A.sym:
+                return bool(S.SymBool(z3.InRe(tok.e, float_rx())))
+            try:
+                float(tok)
+                return True
+            except ValueError:
+                return False
+        allvalid = all(valid(a) and valid(b) for a, b in inp['toks'])
+        if not allvalid:
+            A.require(st == 'exc' and isinstance(res, ValueError), 'load_patterns:unparsable-number=>ValueError')
+            return
+        A.require(st == 'ok', 'load_patterns:well-formed-file-is-read', got=repr(res)[:100] if st != 'ok' else None)
+        if st != 'ok':
+            return
+        same = len(res) == len(want)
+        if same:
+            for pg, pw in zip(res, want):
+                same = same and len(pg) == len(pw)
+                if same:
+                    for og, ow in zip(pg, pw):
+                        same = same and len(og) == len(ow)
+        A.require(same, 'load_patterns:nesting-equals-the-file')
+        if same:
+            ok = True
+            for pg, pw in zip(res, want):
+                for og, ow in zip(pg, pw):
+                    for (ga, gb), (wa, wb) in zip(og, ow):
+                        if A.sym:
+                            ok = A.And(ok, _same_str(A, ga.s if isinstance(ga, FloatTok) else ga, wa), _same_str(A, gb.s if isinstance(gb, FloatTok) else gb, wb))
+                        else:
+                            ok = ok and ga == float(wa) and gb == float(wb)
+            A.require(ok, 'load_patterns:values-in-file-order')
+    return Job('C20', 'load_patterns[%s]' % ''.join(structure), build, body, extra_patches=PATCH, funcs=['io.load_patterns'], lattice=0, exc_policy='body',
+               timeout_s=1500, max_decisions=100000)
+
+
 def jobs(tier):
     q = tier == 'quick'
     js = []
+    for st in (['PON', 'PONONPON'] if q else ['PON', 'PONONPON', 'PONNON', 'PONPONN']):
+        js.append(job_patterns(list(st)))
     shapes = [(0, 1, 1, 1, 1, 1, 0), (1, 1, 1, 2, 1, 3, 1), (0, 2, 2, 1, 1, 2, 1)] if q else \
              [(0, 1, 1, 1, 1, 1, 0), (1, 1, 1, 2, 1, 3, 1), (0, 2, 2, 1, 1, 2, 1), (1, 2, 1, 2, 2, 4, 1), (2, 3, 1, 1, 1, 5, 0)]
     for sh in shapes:
